@@ -286,15 +286,30 @@ macro_rules! basis {
                 // how many further rotations are multiplied on: accumulated rounding makes the
                 // matrix drift away from orthonormal, the way a long-running animation does
                 out.push((Kind::U16, GenClass::Any));
+                out.push((Kind::U8, GenClass::Any));
             }
             fn identity(out: &mut Vec<i64>) {
+                out.push(0);
                 out.push(0);
                 out.push(0);
             }
             fn build(c: &mut Cur) -> Self {
                 let a = <$S as Subject>::build(c);
                 let n = drift_count(c.next());
-                let mut rot: Basis2<$S> = Rotation2::from_angle(Rad(a));
+                let sel = c.next() % 4;
+                let mut rot: Basis2<$S> = match sel {
+                    1 => Basis2::look_at_stable(Vector2::new(a, 1.0 as $S), false),
+                    2 => Basis2::look_at_stable(Vector2::new(a, 0.5 as $S), true),
+                    3 => Rotation::invert(&<Basis2<$S> as Rotation2>::from_angle(Rad(a))),
+                    _ => Rotation2::from_angle(Rad(a)),
+                };
+                {
+                    let m: &Matrix2<$S> = rot.as_ref();
+                    let e: &[$S; 4] = m.as_ref();
+                    if !e.iter().all(|v| v.is_finite()) {
+                        rot = Rotation2::from_angle(Rad(a));
+                    }
+                }
                 let step: Basis2<$S> = Rotation2::from_angle(Rad(0.0123 as $S));
                 for _ in 0..n {
                     rot = rot * step;
@@ -322,9 +337,11 @@ macro_rules! basis {
                     out.push((<$S as Scal>::KIND, GenClass::Moderate));
                 }
                 out.push((Kind::U16, GenClass::Any));
+                // which public constructor builds the value
+                out.push((Kind::U8, GenClass::Any));
             }
             fn identity(out: &mut Vec<i64>) {
-                out.extend_from_slice(&[1, 0, 0, 0, 0]);
+                out.extend_from_slice(&[1, 0, 0, 0, 0, 0]);
             }
             fn build(c: &mut Cur) -> Self {
                 let s = <$S as Subject>::build(c);
@@ -332,7 +349,34 @@ macro_rules! basis {
                 let y = <$S as Subject>::build(c);
                 let z = <$S as Subject>::build(c);
                 let n = drift_count(c.next());
-                let mut rot = Basis3::from_quaternion(&Quaternion::new(s, x, y, z));
+                let sel = c.next() % 5;
+                // every way the public API offers to obtain a Basis3, also with arguments that
+                // ignore documented preconditions (a non-unit axis): whatever finite value comes
+                // out is a value a program can hold and store
+                let mut rot: Basis3<$S> = match sel {
+                    1 => Rotation3::from_axis_angle(Vector3::new(s, x, y), Rad(z)),
+                    2 => Basis3::from(Euler { x: Rad(s), y: Rad(x), z: Rad(y) }),
+                    3 => Rotation::look_at(Vector3::new(s, x, y), Vector3::new(z, 1.0 as $S, 0.25 as $S)),
+                    4 => {
+                        let b = Basis3::from_quaternion(&Quaternion::new(s, x, y, z));
+                        let m: &Matrix3<$S> = b.as_ref();
+                        // (Basis3::invert unwraps the matrix inverse: keep away from singular ones)
+                        if m.determinant().abs() > (1e-6 as $S) {
+                            Rotation::invert(&b)
+                        } else {
+                            b
+                        }
+                    }
+                    _ => Basis3::from_quaternion(&Quaternion::new(s, x, y, z)),
+                };
+                let finite = |b: &Basis3<$S>| {
+                    let m: &Matrix3<$S> = b.as_ref();
+                    let a: &[$S; 9] = m.as_ref();
+                    a.iter().all(|v| v.is_finite())
+                };
+                if !finite(&rot) {
+                    rot = Basis3::from_quaternion(&Quaternion::new(s, x, y, z));
+                }
                 let step: Basis3<$S> = Rotation3::from_angle_z(Rad(0.0123 as $S));
                 for _ in 0..n {
                     rot = rot * step;
